@@ -254,6 +254,12 @@ func runOne(r *sim.Run) {
 	}
 	ms.Attach()
 	defer ms.Detach()
+	if r.Prop == "C23" && t.Prob(1, 4, "full_spec_probe") {
+		fullSpecSealerProbe(r)
+		if r.Violated() {
+			return
+		}
+	}
 	ru.g = mkGenesis(t)
 	if ru.g.specialIDs > 0 {
 		r.Count("probe:service_id_with_special_octets", int64(ru.g.specialIDs))
@@ -263,6 +269,15 @@ func runOne(r *sim.Run) {
 	}
 	if ru.g.alwaysAcc {
 		r.Count("probe:always_accumulate_service_in_genesis", 1)
+	}
+	if ru.g.lateSlot {
+		r.Count("probe:history_starts_at_a_late_slot", 1)
+	}
+	if ru.g.longLived {
+		r.Count("probe:genesis_is_a_snapshot_of_a_long_lived_chain", 1)
+	}
+	if ru.g.deepChain > 0 {
+		r.Count("probe:deep_dependency_chain_in_ready_queue", 1)
 	}
 	if ru.g.permutedSets {
 		r.Count("probe:validator_sets_in_different_orders", 1)
